@@ -35,9 +35,9 @@ variable (hT : tableOK Generated.escapeTable = true) (hC : tableComplete Generat
 include hw hT hC
 
 /-- The parenthesised argument list, in the one-line layout. -/
-theorem lexes_args_line (args : Args) (hne : args ≠ []) (h : Exec.argsWf args) (k : Nat) :
+theorem lexes_args_line (c : Bool) (args : Args) (hne : args ≠ []) (h : Exec.argsWfC c args) (k : Nat) :
     Lexes true (indentLF k ([40] ++ join (Val.printFields w args) [44, 32] ++ [41])) (Exec.argsKvs args) := by
-  have hJ := lexFields w hw false hT hC args h k [44, 32]
+  have hJ := lexFields w hw c hT hC args h k [44, 32]
     (by intro x hx; simp at hx; rcases hx with rfl | rfl <;> simp) (by simp)
   have := lexes_bracket 40 41 .parenL .parenR (by decide) (by decide) (by decide) [] [] _ _
     (by intro x hx; simp at hx) (by intro x hx; simp at hx) hJ
@@ -46,7 +46,7 @@ theorem lexes_args_line (args : Args) (hne : args ≠ []) (h : Exec.argsWf args)
   simpa [indentLF_append, indentLF_joinWith, indentLF, List.append_assoc, Exec.argsKvs] using this
 
 /-- The parenthesised argument list, in the wrapped layout. -/
-theorem lexes_args_wrapped (args : Args) (hne : args ≠ []) (h : Exec.argsWf args) (k : Nat) :
+theorem lexes_args_wrapped (c : Bool) (args : Args) (hne : args ≠ []) (h : Exec.argsWfC c args) (k : Nat) :
     Lexes true (indentLF k ([40] ++ [10] ++ indent (join (Val.printFields w args) [10]) ++ [10] ++ [41]))
       (Exec.argsKvs args) := by
   have hts : Val.printFields w args ≠ [] := by
@@ -54,7 +54,7 @@ theorem lexes_args_wrapped (args : Args) (hne : args ≠ []) (h : Exec.argsWf ar
     obtain ⟨n, v⟩ := a
     rw [Val.printFields]
     exact List.cons_ne_nil _ _
-  have hJ := lexFields w hw false hT hC args h (k + 2) (10 :: List.replicate (k + 2) 32)
+  have hJ := lexFields w hw c hT hC args h (k + 2) (10 :: List.replicate (k + 2) 32)
     (ignorable_lf_spaces _) (by simp)
   rw [join_eq_joinWith _ _ (printFields_ne_nil w args),
     indentLF_wrapped k 40 41 _ hts (printFields_ne_nil w args) (by decide) (by decide)]
@@ -66,7 +66,7 @@ theorem lexes_args_wrapped (args : Args) (hne : args ≠ []) (h : Exec.argsWf ar
   simpa [Exec.argsKvs] using this
 
 /-- One directive. -/
-theorem lexes_dir (d : Dir) (h : Exec.dirWf d) (k : Nat) :
+theorem lexes_dir (c : Bool) (d : Dir) (h : Exec.dirWfC c d) (k : Nat) :
     Lexes true (indentLF k (Exec.printDir w d)) (Exec.dirKvs d) := by
   obtain ⟨hn, ha⟩ := h
   have hname : Lexes true (64 :: d.name) [(.at, none), (.name, some d.name)] := by
@@ -84,7 +84,7 @@ theorem lexes_dir (d : Dir) (h : Exec.dirWf d) (k : Nat) :
       List.append_nil, Exec.argsKvs]
     rw [indentLF_no10 k _ hno]
     exact hname
-  · have hline := lexes_args_line w hw hT hC d.args hargs ha k
+  · have hline := lexes_args_line w hw hT hC c d.args hargs ha k
     have hjne : join (Val.printFields w d.args) [44, 32] ≠ [] := by
       rw [join_eq_joinWith _ _ (printFields_ne_nil w d.args)]
       apply joinWith_eq_nil (printFields_ne_nil w d.args)
@@ -132,13 +132,13 @@ variable (w : Widths) (hw : 4 ≤ w.object)
 variable (hT : tableOK Generated.escapeTable = true) (hC : tableComplete Generated.escapeTable = true)
 include hw hT hC
 
-theorem lexes_dirs (ds : List Dir) (h : Exec.dirsWf ds) (k : Nat) :
+theorem lexes_dirs (c : Bool) (ds : List Dir) (h : Exec.dirsWfC c ds) (k : Nat) :
     LexOpt (indentLF k (Exec.printDirs w ds)) (Exec.dirsKvs ds) := by
   induction ds with
   | nil => left; simp [Exec.printDirs, join, joinWith, indentLF, Exec.dirsKvs]
   | cons d r ih =>
     right
-    have hd := lexes_dir w hw hT hC d h.1 k
+    have hd := lexes_dir w hw hT hC c d h.1 k
     rw [printDirs_cons]
     by_cases hr : r = []
     · subst hr
@@ -167,7 +167,7 @@ theorem lexes_dirs (ds : List Dir) (h : Exec.dirsWf ds) (k : Nat) :
 
 /-- `wrapped_line_and_args(prefix, args)` for a lexable prefix without line feeds. -/
 theorem lexes_wrappedLineAndArgs (pre : List Nat) (kp : List KV) (hpre : Lexes true pre kp)
-    (hno : ∀ x ∈ pre, x ≠ 10) (args : Args) (h : Exec.argsWf args) (k : Nat) :
+    (hno : ∀ x ∈ pre, x ≠ 10) (c : Bool) (args : Args) (h : Exec.argsWfC c args) (k : Nat) :
     Lexes true (indentLF k (wrappedLineAndArgs w pre (Val.printFields w args))) (kp ++ Exec.argsKvs args) := by
   unfold wrappedLineAndArgs
   by_cases hargs : args = []
@@ -205,13 +205,13 @@ theorem lexes_wrappedLineAndArgs (pre : List Nat) (kp : List KV) (hpre : Lexes t
     simp only
     split
     · rw [hw2, indentLF_append, indentLF_no10 k pre hno]
-      have := Lexes.append hpre (lexes_args_wrapped w hw hT hC args hargs h k) (by
+      have := Lexes.append hpre (lexes_args_wrapped w hw hT hC c args hargs h k) (by
         intro _ rest _
         have := hsafe ([10] ++ indent (join (Val.printFields w args) [10]) ++ [10] ++ [41]) rest
         simpa [List.append_assoc] using this)
       exact this
     · rw [hw1, indentLF_append, indentLF_no10 k pre hno]
-      have := Lexes.append hpre (lexes_args_line w hw hT hC args hargs h k) (by
+      have := Lexes.append hpre (lexes_args_line w hw hT hC c args hargs h k) (by
         intro _ rest _
         have := hsafe (join (Val.printFields w args) [44, 32] ++ [41]) rest
         simpa [List.append_assoc] using this)
@@ -447,8 +447,8 @@ mutual
             · omega
             · omega
         · exact name_no10 hn x hx
-      have hX := lexes_wrappedLineAndArgs w hw hT hC _ _ hpre hno args hargs k
-      have hD := lexes_dirs w hw hT hC ds hds k
+      have hX := lexes_wrappedLineAndArgs w hw hT hC _ _ hpre hno false args hargs k
+      have hD := lexes_dirs w hw hT hC false ds hds k
       have hJ := lexSels ss hss (k + 2) (10 :: List.replicate (k + 2) 32) (ignorable_lf_spaces _) (by simp)
       have hne := printSels_ne_nil w ss hss
       have hB : LexOpt (indentLF k (ssText w ss)) (ssKvsOpt ss) := by
@@ -476,15 +476,15 @@ mutual
         rcases List.mem_append.mp hx with hx | hx
         · simp at hx; omega
         · exact name_no10 hn x hx
-      have hX := lexes_wrappedLineAndArgs w hw hT hC _ _ hpre hno [] (by trivial) k
-      have hD := lexes_dirs w hw hT hC ds hds k
+      have hX := lexes_wrappedLineAndArgs w hw hT hC _ _ hpre hno false [] (by trivial) k
+      have hD := lexes_dirs w hw hT hC false ds hds k
       rw [printSel_spread, indentLF_append, indentLF_wrap]
       have h1 := lexes_optSpace hX hD
       simpa [indentLF, Exec.selKvs, Exec.argsKvs, List.append_assoc] using h1
     | .inline tc ds ss, h =>
       unfold Exec.selWf at h
       obtain ⟨htc, hds, hssne, hss⟩ := h
-      have hD := lexes_dirs w hw hT hC ds hds k
+      have hD := lexes_dirs w hw hT hC false ds hds k
       have hts : Exec.printSels w ss ≠ [] := by
         obtain ⟨s, r, rfl⟩ := List.exists_cons_of_ne_nil hssne
         simp [Exec.printSels]
